@@ -493,6 +493,16 @@ func runC07(c *core.Ctx) {
 		c.Unknown("R7", "BufferedChannelQueue.Count", "-", "method not found")
 	} else {
 		ok, detail := false, "no return of len(channel)+pool.Count() found"
+		// the sum may be computed by an unexported helper called with the lock held (`return q.countLocked()`)
+		core.Instrs(f, func(ins ssa.Instruction) {
+			if r, isRet := ins.(*ssa.Return); isRet {
+				if call, isC := liveValue(core.Resolve(core.RetVals(r)[0]), flagEdge(p, f.Params[0].Name(), "isClosed", true)).(*ssa.Call); isC {
+					if h := core.Callee(&call.Call); h != nil && p.InRepo(h) && len(h.Blocks) > 0 && h.Object() != nil && !h.Object().Exported() && len(call.Call.Args) == 1 && core.Resolve(call.Call.Args[0]) == ssa.Value(f.Params[0]) && len(h.Params) == 1 {
+						f = h
+					}
+				}
+			}
+		})
 		base := f.Params[0].Name()
 		core.Instrs(f, func(ins ssa.Instruction) {
 			r, isRet := ins.(*ssa.Return)
@@ -969,7 +979,35 @@ func chanReceives(g *ssa.Function) bool {
 // c07wakeups (R11).
 func c07wakeups(c *core.Ctx) {
 	p := c.P
-	isWake := func(v ssa.Value) bool { return core.FieldKey(v) == "BufferedChannelQueue.loadWorkerCh" }
+	isWake := func(v ssa.Value) bool {
+		if core.FieldKey(v) == "BufferedChannelQueue.loadWorkerCh" {
+			return true
+		}
+		// the loader may be handed its channel (`go q.loadFromPool(q.loadWorkerCh)`): a channel parameter for which
+		// every call site passes the wake-up channel
+		prm, isP := core.Resolve(v).(*ssa.Parameter)
+		if !isP {
+			return false
+		}
+		f := prm.Parent()
+		idx := -1
+		for i, q2 := range f.Params {
+			if q2 == prm {
+				idx = i
+			}
+		}
+		sites, complete := core.CallSites(p, f)
+		if idx < 0 || !complete || len(sites) == 0 {
+			return false
+		}
+		for _, st := range sites {
+			ci, isCI := st.Instr.(ssa.CallInstruction)
+			if !isCI || idx >= len(ci.Common().Args) || core.FieldKey(ci.Common().Args[idx]) != "BufferedChannelQueue.loadWorkerCh" {
+				return false
+			}
+		}
+		return true
+	}
 	type consumer struct {
 		fn  *ssa.Function
 		ins ssa.Instruction
